@@ -176,6 +176,19 @@ type frame struct {
 	panicking        bool
 	panic            interface{}
 	phitemps         []value // temporaries for parallel phi assignment
+	backEdges        int     // loop back-edges taken in this activation
+}
+
+// spinner names the active function that has taken the most loop back-edges:
+// the loop that consumes the step budget.
+func spinner(fr *frame) string {
+	best, name := -1, ""
+	for f := fr; f != nil; f = f.caller {
+		if f.backEdges > best {
+			best, name = f.backEdges, f.fn.String()
+		}
+	}
+	return name
 }
 
 func (fr *frame) get(key ssa.Value) value {
@@ -337,10 +350,16 @@ func visitInstr(fr *frame, instr ssa.Instruction) continuation {
 		default:
 			panic(unsupported(fmt.Sprintf("If on %T", c)))
 		}
+		if fr.block.Succs[succ].Index <= fr.block.Index {
+			fr.backEdges++
+		}
 		fr.prevBlock, fr.block = fr.block, fr.block.Succs[succ]
 		return kJump
 
 	case *ssa.Jump:
+		if fr.block.Succs[0].Index <= fr.block.Index {
+			fr.backEdges++
+		}
 		fr.prevBlock, fr.block = fr.block, fr.block.Succs[0]
 		return kJump
 
@@ -656,8 +675,9 @@ func runFrame(fr *frame) {
 			}
 			X.steps++
 			if X.steps > X.MaxSteps {
+				w := spinner(fr)
 				fr.block = nil
-				panic(stepBudget{fr.fn.String()})
+				panic(stepBudget{w})
 			}
 			if visitInstr(fr, instr) == kReturn {
 				return
